@@ -47,6 +47,10 @@ def run(ctx):
     r57(ctx, m)
     r59(ctx, m)
     r510(ctx, m)
+    from . import c13 as _c13
+    _c13.r135(ctx)
+    from . import c08 as _c08b
+    _c08b.r89(ctx, ctx.repo['util'], 'R5.11')
     from . import c08 as _c08
     _c08.r87(ctx, ctx.repo['util'], 'R5.8')
     from . import c04 as _c04
@@ -371,7 +375,10 @@ def r55(ctx, m):
            'a flat list of conditions is one AND group', m.loc(f))
     # the selections are what the function returns
     comps = [r.value for r in ast.walk(f) if isinstance(r, ast.Return) and isinstance(r.value, ast.ListComp)]
-    ctx.floor('R5.5', 'selection comprehensions', len(comps), 2)
+    rets = [r for r in ast.walk(f) if isinstance(r, ast.Return)]
+    ctx.ob('R5.5', 'api.filter_row_groups:every-exit-returns-a-selection-computed-for-this-call', len(comps) == 2 and len(rets) == 2,
+           'returns: %s - anything else (a value re-read from the handle, a remembered earlier result) is not the selection for '
+           'the filters of this call' % [norm(r.value)[:50] if r.value is not None else 'None' for r in rets], m.loc(f))
     shapes = []
     for comp in comps:
         gen = comp.generators[0]
